@@ -1,6 +1,6 @@
 SPECIFICATION Spec
 CONSTANT N = 3
-CONSTANT SITES <- Sites6
+CONSTANT SITES <- Sites5
 CONSTANT STENCIL <- Stencil7
 CONSTANT GUESSMODES <- GuessFew
 CONSTANT STAMPS <- Stamps1
